@@ -434,7 +434,8 @@ def generate(rng, config):
         case["fault_seed"] = rng.randrange(2 ** 30)
     if config == "extended":
         case["extended"] = rng.choice(["stdout_epipe", "stdout_enospc",
-                                       "outfile_enospc", "stdin_eio"])
+                                       "outfile_enospc", "stdin_eio",
+                                       "stdin_closed", "stdin_closed"])
     # the locale of the process (what open() without an encoding uses)
     case["locale"] = rng.choice([None, None, None, "ascii", "latin-1",
                                  "cp1252"])
@@ -639,6 +640,8 @@ def _one(case, ctx, faults):
         kw["stdout_fail"] = OSError(errno.ENOSPC, "No space left on device")
     elif ext == "stdin_eio":
         kw["stdin_plan"] = {"eio_at": 0}
+    elif ext == "stdin_closed":
+        kw["stdin_closed"] = True
     elif ext == "outfile_enospc":
         e = fs.entries.setdefault("out.cnf", {"kind": "file", "data": b"",
                                               "plan": {}})
@@ -655,6 +658,11 @@ def _one(case, ctx, faults):
         ctx.fault("device:" + ext)
         if prob:
             ctx.note("extended (%s): %s" % (ext, prob[0].split("/")[0]))
+        if ext == "stdin_closed" and o.exc is not None:
+            # nobody at the keyboard is not an excuse for a traceback
+            raise Violation("C18/%s/%s" % (tool, prob[0]),
+                            "%s %s\nstandard input closed\n%r" %
+                            (tool, " ".join(map(repr, argv)), o.exc))
         _, target = requested_format(tool, argv)
         hit = (ext == "stdout_enospc" and target in (None, "-")) or \
             (ext == "outfile_enospc" and target == "out.cnf")
